@@ -562,8 +562,11 @@ class Run:
             h = self.pick(d["a"], ("OP",))
             if h is None:
                 return
-            k = d["fz"] % 5
+            k = d["fz"] % 9
             b = self.pick(d["b"], ("OP",)) or h
+            # scalars for which a product / quotient / sum is the same VALUE as the operand (1, 1.0, 1+0j; the empty
+            # operator): the result must still be a new object
+            sc = [1, 1.0, 1 + 0j, True, -1, 0.5, 2.0][d["i"] % 7]
             if k == 0:
                 r, txt = h.obj + b.obj, f"{h.name()} + {b.name()}"
             elif k == 1:
@@ -572,6 +575,16 @@ class Run:
                 r, txt = h.obj.copy(), f"{h.name()}.copy()"
             elif k == 3:
                 r, txt = h.obj * 2.0, f"{h.name()} * 2.0"
+            elif k == 5:
+                r, txt = h.obj * sc, f"{h.name()} * {sc!r}"
+            elif k == 6:
+                r, txt = sc * h.obj, f"{sc!r} * {h.name()}"
+            elif k == 7:
+                r, txt = h.obj / sc, f"{h.name()} / {sc!r}"
+            elif k == 8:
+                z = Operator()
+                r, txt = (h.obj + z, f"{h.name()} + Operator()") if d["i"] % 2 else (h.obj - z, f"{h.name()} - Operator()")
+                b = h
             else:
                 r, txt = h.obj.hermitian_conjugated(), f"{h.name()}.hermitian_conjugated()"
             if r is h.obj or r is b.obj:
@@ -680,7 +693,7 @@ def rnd_term(rng):
 
 WEIGHTS = [("new_qc", 2), ("new_up", 1.5), ("new_lm", 1.5), ("add_gate", 9), ("add_pgate", 4), ("dict_reuse", 1.5), ("add_params", 2),
            ("freeze", 5), ("mcopy", 4), ("plus", 4), ("extend", 2), ("iadd", 1.5), ("bind", 3), ("ictor", 3.5),
-           ("state", 4), ("state_op", 3), ("new_op", 1.5), ("op_mut", 3), ("op_new_from", 1), ("op_lookup", 3.5),
+           ("state", 4), ("state_op", 3), ("new_op", 1.5), ("op_mut", 3), ("op_new_from", 2.5), ("op_lookup", 3.5),
            ("estimate", 3)]
 
 
